@@ -405,7 +405,8 @@ pub fn air_perturb(inp: &str, outp: &str) {
                         "memory" => {
                             let rd = nxt[MEMORY_SELECTORS_COL_IDX] == Felt::ONE;
                             let same = nxt[MEMORY_SELECTORS_COL_IDX + 2] == cur[MEMORY_SELECTORS_COL_IDX + 2] && nxt[MEMORY_SELECTORS_COL_IDX + 3] == cur[MEMORY_SELECTORS_COL_IDX + 3];
-                            if rd && same { "readsame" } else if rd { "readnew" } else if same { "writesame" } else { "writenew" }
+                            let samectx = nxt[MEMORY_SELECTORS_COL_IDX + 2] == cur[MEMORY_SELECTORS_COL_IDX + 2];
+                            if rd && same { "readsame" } else if rd && samectx { "readnewaddr" } else if rd { "readnewctx" } else if same { "writesame" } else if samectx { "writenewaddr" } else { "writenewctx" }
                         }
                         _ => "x",
                     };
